@@ -14,9 +14,11 @@
           routed by the responsible later pass)
 """
 import ast
+import copy
 
 from sa import asdl
 from sa import core
+from sa import formula
 from sa import rules_fold
 from sa import rules_order
 from sa import rules_stale
@@ -116,24 +118,52 @@ def _call_exceptions(h, guards):
         names[a.targets[0].id] = 'CALLEE'
       elif v == 'self.state[_Function].context_name':
         names[a.targets[0].id] = 'FSCOPE'
-  allowed = {
-      ('prefix', 'CALLEE', 'ag__.'),
-      ('prefix', 'CALLEE', ('FSCOPE', '.')),
-      ('in', 'CALLEE', frozenset(['pdb.set_trace', 'ipdb.set_trace', 'breakpoint'])),
-      ('and', frozenset([
-          ('in', 'CALLEE', frozenset(['print'])),
-          ('not', ('text', 'self.ctx.user.options.uses(converter.Feature.BUILTIN_FUNCTIONS)'))])),
-  }
+  # locals bound once to a plain attribute chain read through (user_options =
+  # self.ctx.user.options)
+  alias = {}
+  count = {}
+  for a in core.walk_no_nested(h.node):
+    if isinstance(a, ast.Assign) and len(a.targets) == 1 and isinstance(a.targets[0], ast.Name):
+      count[a.targets[0].id] = count.get(a.targets[0].id, 0) + 1
+      v = a.value
+      while isinstance(v, ast.Attribute):
+        v = v.value
+      if isinstance(v, ast.Name) and isinstance(a.value, ast.Attribute) and \
+          a.targets[0].id not in names:
+        alias[a.targets[0].id] = a.value
+
+  class Sub(ast.NodeTransformer):
+    def visit_Name(self, n):
+      if n.id in alias and count.get(n.id) == 1:
+        return self.visit(copy.deepcopy(alias[n.id]))
+      return n
+
+  def atom_of(e):
+    c = _canon(e, names)
+    if c[0] == 'in':
+      f = formula.FALSE
+      for v in sorted(c[2], key=repr):
+        f = f | formula.atom(repr(('eq', c[1], v)))
+      return f
+    return repr(c)
+
+  def eq(v):
+    return formula.atom(repr(('eq', 'CALLEE', v)))
+  allowed = formula.atom(repr(('prefix', 'CALLEE', 'ag__.'))) | \
+      formula.atom(repr(('prefix', 'CALLEE', ('FSCOPE', '.')))) | \
+      eq('pdb.set_trace') | eq('ipdb.set_trace') | eq('breakpoint') | \
+      (eq('print') & ~formula.atom(repr(
+          ('text', 'self.ctx.user.options.uses(converter.Feature.BUILTIN_FUNCTIONS)'))))
+  f = formula.TRUE
   for pol, txt in guards:
-    if pol != 'T':
-      continue
     try:
-      t = ast.parse(txt, mode='eval').body
+      t = Sub().visit(ast.parse(txt, mode='eval').body)
     except SyntaxError:
       continue
-    if _canon(t, names) in allowed:
-      return True
-  return False
+    g = formula.bool_formula(t, atom_of)
+    f = f & (g if pol == 'T' else ~g)
+  # the callee's name is one string: two different constants exclude each other
+  return formula.implies(f, allowed)[0]
 
 
 def _no_overload_exception(h, guards):
